@@ -27,6 +27,7 @@ Qed.
 Lemma dc_names_rot_key_lemma ele cnt socc ks rot_id dck uuid socu vu beacon fca c d :
   dc_create ele cnt socc ks rot_id dck uuid socu vu beacon fca = Ok (c, d) ->
   nth_error ks (N.to_nat rot_id) = Some (d_rot d) /\ d_dck d = dck /\ d_uuid d = uuid /\ d_socc d = socc /\
+  length uuid = 16%nat /\ is_ecc_key dck = is_ecc_key (d_rot d) /\ key_bits dck = key_bits (d_rot d) /\
   match c with
   | CRsa => exists items it, d_meta d = RMRsa items /\ map_res dc_rsa_item ks = Ok items
                              /\ nth_error items (N.to_nat rot_id) = Some it /\ dc_rsa_item (d_rot d) = Ok it
@@ -37,9 +38,16 @@ Lemma dc_names_rot_key_lemma ele cnt socc ks rot_id dck uuid socu vu beacon fca 
 Proof.
   unfold dc_create. destruct (nth_error ks (N.to_nat rot_id)) as [rot|] eqn:EN; [|discriminate].
   destruct (version_of_key rot) as [v|]; [|discriminate]. cbn [bind].
-  destruct (class_of ele cnt (fst v) (snd v)) as [[c'|]|]; cbn [bind]; try discriminate.
+  destruct (class_of ele cnt (fst v) (snd v)) as [oc|]; cbn [bind]; [|discriminate].
+  destruct (negb (length uuid =? 16)%nat) eqn:EU; [discriminate|].
+  destruct (negb (Bool.eqb (is_ecc_key dck) (is_ecc_key rot) && (key_bits dck =? key_bits rot))) eqn:ED; [discriminate|].
+  destruct oc as [c'|]; [|discriminate].
   destruct (rot_meta_create c' ks rot_id fca) as [m|] eqn:EM; [|discriminate]. cbn [bind].
-  intros H; inversion H; subst. clear H. cbn [d_rot d_dck d_uuid d_socc d_meta]. repeat split.
+  intros H; inversion H; subst. clear H. cbn [d_rot d_dck d_uuid d_socc d_meta].
+  apply negb_false_iff, Nat.eqb_eq in EU. apply negb_false_iff, andb_true_iff in ED as [ED1 ED2].
+  apply Bool.eqb_prop in ED1. apply N.eqb_eq in ED2.
+  split; [reflexivity|]. split; [reflexivity|]. split; [reflexivity|]. split; [reflexivity|]. split; [exact EU|].
+  split; [exact ED1|]. split; [exact ED2|].
   destruct c; unfold rot_meta_create in EM.
   - destruct (4 <? nlen ks); [discriminate|]. destruct (map_res dc_rsa_item ks) as [items|] eqn:EI; [|discriminate].
     cbn [bind] in EM. inversion EM; subst. destruct (map_res_nth _ _ _ _ _ EI EN) as (it & Hn & Hi).
@@ -127,12 +135,16 @@ Lemma dc_created_roundtrip_rsa cnt socc ks rot_id dck uuid socu vu beacon fca si
   (kb = 256%nat /\ mi = 0 \/ kb = 512%nat /\ mi = 1) -> (length ks <= 4)%nat ->
   (exists rot, nth_error ks (N.to_nat rot_id) = Some rot /\ rsa_rot_wf kb rot) -> Forall rsa_e3 ks ->
   (forall items, map_res dc_rsa_item ks = Ok items -> Forall (fun it => all_zero it = false) items) ->
-  rsa_key_wf kb dck -> length uuid = 16%nat -> u32_ok socc -> u32_ok socu -> u32_ok vu -> u32_ok beacon -> length sig = kb ->
+  rsa_rot_wf kb dck -> length uuid = 16%nat -> u32_ok socc -> u32_ok socu -> u32_ok vu -> u32_ok beacon -> length sig = kb ->
   exists d b, dc_create 0 cnt socc ks rot_id dck uuid socu vu beacon fca = Ok (CRsa, d)
               /\ dc_export CRsa (dc_with_sig d sig) = Ok b /\ forall extra, dc_parse_class CRsa (b ++ extra) = Ok (dc_with_sig d sig).
 Proof.
-  intros Hk HL (rot & EN & Hrot) He3 HZ Hdck Huuid Hsocc Hsocu Hvu Hbeacon Hsig.
+  intros Hk HL (rot & EN & Hrot) He3 HZ Hdck0 Huuid Hsocc Hsocu Hvu Hbeacon Hsig.
   destruct rot as [n e|]; [|contradiction]. destruct Hrot as (Hsz & He & Hok).
+  destruct dck as [nd ed|]; [|contradiction]. destruct Hdck0 as (Hszd & Hed & Hokd).
+  assert (Hbl : forall m, N.size m = 8 * N.of_nat kb -> byte_len m = kb).
+  { intros m Hm. unfold byte_len. rewrite Hm. destruct Hk as [[-> _] | [-> _]]; reflexivity. }
+  assert (Hdck : rsa_key_wf kb (KRsa nd ed)) by (repeat split; [now apply Hbl|assumption|assumption]).
   assert (EI : exists items, map_res dc_rsa_item ks = Ok items).
   { apply map_res_total. eapply Forall_impl; [|exact He3]. intros [n' e'|] H; [|contradiction]. cbn in H.
     unfold dc_rsa_item. rewrite dat_to_bytes_ok by (simpl; lia). cbn [bind]. now eexists. }
@@ -142,29 +154,29 @@ Proof.
   { unfold version_of_key. rewrite Hsz. destruct Hk as [[-> ->] | [-> ->]]; reflexivity. }
   assert (Ecl : class_of 0 cnt 1 mi = Ok (Some CRsa)) by reflexivity.
   assert (E4 : (4 <? nlen ks) = false) by (apply N.ltb_ge; unfold nlen; lia).
-  set (d0 := {| d_major := 1; d_minor := mi; d_socc := socc; d_uuid := uuid; d_meta := RMRsa items; d_dck := dck;
+  set (d0 := {| d_major := 1; d_minor := mi; d_socc := socc; d_uuid := uuid; d_meta := RMRsa items; d_dck := KRsa nd ed;
                 d_socu := socu; d_vu := vu; d_beacon := beacon; d_rot := KRsa n e; d_sig := [] |}).
-  assert (EC : dc_create 0 cnt socc ks rot_id dck uuid socu vu beacon fca = Ok (CRsa, d0)).
-  { unfold dc_create. rewrite EN, Ever. cbn [bind fst snd]. rewrite Ecl. cbn [bind]. unfold rot_meta_create. rewrite E4, EI.
-    cbn [bind]. reflexivity. }
+  assert (EC : dc_create 0 cnt socc ks rot_id (KRsa nd ed) uuid socu vu beacon fca = Ok (CRsa, d0)).
+  { unfold dc_create. rewrite EN, Ever. cbn [bind fst snd]. rewrite Ecl. cbn [bind]. rewrite Huuid. cbn [Nat.eqb negb].
+    cbn [is_ecc_key key_bits Bool.eqb]. rewrite Hsz, Hszd, N.eqb_refl. cbn [andb negb].
+    unfold rot_meta_create. rewrite E4, EI. cbn [bind]. reflexivity. }
   assert (W : wf_dc_rsa (dc_with_sig d0 sig)).
   { unfold wf_dc_rsa, dc_with_sig, d0. cbn [d_major d_minor d_socc d_uuid d_meta d_dck d_socu d_vu d_beacon d_rot d_sig].
     assert (Ekb : rsa_kb mi = kb) by (destruct Hk as [[-> ->] | [-> ->]]; reflexivity). rewrite Ekb.
     split; [reflexivity|]. split; [destruct Hk as [[_ ->] | [_ ->]]; auto|]. split; [assumption|]. split; [assumption|]. split.
     - exists items. split; [reflexivity|]. split; [lia|]. split; [assumption|]. now apply HZ.
-    - repeat split; try assumption. unfold byte_len. rewrite Hsz. destruct Hk as [[-> _] | [-> _]]; reflexivity. }
+    - repeat split; try assumption; now apply Hbl. }
   destruct (dc_roundtrip_rsa _ W) as (b & t & _ & E & _ & P). exists d0, b. split; [exact EC|]. split; [exact E|exact P].
 Qed.
 
 Lemma dc_created_roundtrip_ecc cnt socc ks rot_id dck uuid socu vu beacon fca sig c mi :
   (c = 256 /\ mi = 0 \/ c = 384 /\ mi = 1 \/ c = 521 /\ mi = 2) -> ks <> [] -> (length ks <= 4)%nat ->
   (N.to_nat rot_id < length ks)%nat -> Forall (ecc_key_wf c) ks -> ecc_key_wf c dck ->
-  ~ (c = 521 /\ (2 <= length ks)%nat) ->                      (* recorded class C15-F1 *)
   length uuid = 16%nat -> u32_ok socc -> u32_ok socu -> u32_ok vu -> u32_ok beacon -> length sig = (2 * coord_size c)%nat ->
   exists d b, dc_create 0 cnt socc ks rot_id dck uuid socu vu beacon fca = Ok (CEcc, d)
               /\ dc_export CEcc (dc_with_sig d sig) = Ok b /\ forall extra, dc_parse_class CEcc (b ++ extra) = Ok (dc_with_sig d sig).
 Proof.
-  intros Hk Hne HL Hid Hks Hdck Hnk Huuid Hsocc Hsocu Hvu Hbeacon Hsig.
+  intros Hk Hne HL Hid Hks Hdck Huuid Hsocc Hsocu Hvu Hbeacon Hsig.
   assert (Hc : c = 256 \/ c = 384 \/ c = 521) by (destruct Hk as [[-> _] | [[-> _] | [-> _]]]; auto).
   destruct (nth_error ks (N.to_nat rot_id)) as [rot|] eqn:EN; [|apply nth_error_None in EN; lia].
   assert (Hrot : ecc_key_wf c rot) by (rewrite Forall_forall in Hks; apply Hks; eapply nth_error_In; exact EN).
@@ -184,6 +196,8 @@ Proof.
   assert (F2 : forallb (fun k => N.of_nat (coord_size (key_bits k)) =? hs) ks = true).
   { apply forallb_forall. intros k Hin. destruct (Hall k Hin) as (x & y & -> & _). cbn [key_bits]. apply N.eqb_refl. }
   assert (Ehs : hs = ecc_hs mi) by (unfold hs, ecc_hs; destruct Hk as [[-> ->] | [[-> ->] | [-> ->]]]; reflexivity).
+  assert (Ehl : (if c =? 256 then 32%nat else if c =? 384 then 48%nat else 64%nat) = N.to_nat (ecc_hl mi))
+    by (unfold ecc_hl; destruct Hk as [[-> ->] | [[-> ->] | [-> ->]]]; reflexivity).
   assert (F3 : mem_n hs (map fst g_hash_sizes) = true) by (rewrite Ehs; unfold ecc_hs; destruct Hk as [[_ ->] | [[_ ->] | [_ ->]]]; reflexivity).
   assert (F4 : flags_validate rot_id (nlen ks) = true).
   { unfold flags_validate, nlen. apply andb_true_iff. split; apply negb_true_iff; [apply N.ltb_ge|apply N.ltb_ge]; lia. }
@@ -212,7 +226,9 @@ Proof.
   set (d0 := {| d_major := 2; d_minor := mi; d_socc := socc; d_uuid := uuid; d_meta := RMEcc hs rot_id (nlen ks) items; d_dck := dck;
                 d_socu := socu; d_vu := vu; d_beacon := beacon; d_rot := KEcc c xr yr; d_sig := [] |}).
   assert (EC : dc_create 0 cnt socc ks rot_id dck uuid socu vu beacon fca = Ok (CEcc, d0)).
-  { unfold dc_create. rewrite EN, Ever. cbn [bind fst snd]. rewrite Ecl. cbn [bind]. rewrite EK. unfold rot_meta_create. cbv beta iota. rewrite <- EK.
+  { unfold dc_create. rewrite EN, Ever. cbn [bind fst snd]. rewrite Ecl. cbn [bind]. rewrite Huuid. cbn [Nat.eqb negb].
+    destruct dck as [|cd xd yd]; [contradiction|]. destruct Hdck as [-> Hod]. cbn [is_ecc_key key_bits Bool.eqb]. rewrite N.eqb_refl.
+    cbn [andb negb]. rewrite EK. unfold rot_meta_create. cbv beta iota. rewrite <- EK.
     rewrite F1. cbn [negb key_bits]. fold hs. rewrite F2, F3. cbn [negb]. rewrite EI. cbn [bind].
     rewrite F4. reflexivity. }
   assert (Ecv : ecc_curve mi = c) by (unfold ecc_curve; destruct Hk as [[-> ->] | [[-> ->] | [-> ->]]]; reflexivity).
@@ -221,9 +237,7 @@ Proof.
     split; [reflexivity|]. split; [destruct Hk as [[_ ->] | [[_ ->] | [_ ->]]]; auto|]. split; [assumption|]. split; [assumption|]. split.
     - exists rot_id, (nlen ks), items. split; [reflexivity|]. split; [exact F4|]. split; [exact Hi1|].
       intros H1. destruct (Hi2 H1) as [Hl Hf]. split; [rewrite Hl; unfold nlen; lia|].
-      assert (Hcc : c <> 521) by (intros ->; apply Hnk; split; [reflexivity|unfold nlen in H1; lia]).
-      eapply Forall_impl; [|exact Hf]. intros x Hx. rewrite Hx. unfold hs.
-      destruct Hc as [-> | [-> | ->]]; [reflexivity|reflexivity|contradiction].
+      eapply Forall_impl; [|exact Hf]. intros x Hx. now rewrite Hx.
     - repeat split; try assumption. rewrite Hsig. unfold hs. lia. }
   destruct (dc_roundtrip_ecc _ W) as (b & tt & _ & E & _ & P). exists d0, b. split; [exact EC|]. split; [exact E|exact P].
 Qed.
@@ -234,27 +248,38 @@ Lemma dc_created_roundtrip_lemma cnt socc ks rot_id dck uuid socu vu beacon fca 
   ( (exists kb mi, (kb = 256%nat /\ mi = 0 \/ kb = 512%nat /\ mi = 1)
         /\ (exists rot, nth_error ks (N.to_nat rot_id) = Some rot /\ rsa_rot_wf kb rot) /\ Forall rsa_e3 ks
         /\ (forall items, map_res dc_rsa_item ks = Ok items -> Forall (fun it => all_zero it = false) items)
-        /\ rsa_key_wf kb dck /\ length sig = kb)
+        /\ rsa_rot_wf kb dck /\ length sig = kb)
     \/ (exists c mi, (c = 256 /\ mi = 0 \/ c = 384 /\ mi = 1 \/ c = 521 /\ mi = 2) /\ ks <> []
         /\ (N.to_nat rot_id < length ks)%nat /\ Forall (ecc_key_wf c) ks /\ ecc_key_wf c dck
-        /\ ~ (c = 521 /\ (2 <= length ks)%nat) /\ length sig = (2 * coord_size c)%nat) ) ->
+        /\ length sig = (2 * coord_size c)%nat) ) ->
   exists c d b, dc_create 0 cnt socc ks rot_id dck uuid socu vu beacon fca = Ok (c, d)
                 /\ dc_export c (dc_with_sig d sig) = Ok b /\ forall extra, dc_parse_class c (b ++ extra) = Ok (dc_with_sig d sig).
 Proof.
-  intros Huuid Hsocc Hsocu Hvu Hbeacon HL [(kb & mi & Hk & Hrot & He3 & HZ & Hdck & Hsig) | (c & mi & Hk & Hne & Hid & Hks & Hdck & Hnk & Hsig)].
+  intros Huuid Hsocc Hsocu Hvu Hbeacon HL [(kb & mi & Hk & Hrot & He3 & HZ & Hdck & Hsig) | (c & mi & Hk & Hne & Hid & Hks & Hdck & Hsig)].
   - destruct (dc_created_roundtrip_rsa cnt socc ks rot_id dck uuid socu vu beacon fca sig kb mi Hk HL Hrot He3 HZ Hdck Huuid Hsocc Hsocu Hvu Hbeacon Hsig)
       as (d & b & H). exists CRsa, d, b. exact H.
-  - destruct (dc_created_roundtrip_ecc cnt socc ks rot_id dck uuid socu vu beacon fca sig c mi Hk Hne HL Hid Hks Hdck Hnk Huuid Hsocc Hsocu Hvu Hbeacon Hsig)
+  - destruct (dc_created_roundtrip_ecc cnt socc ks rot_id dck uuid socu vu beacon fca sig c mi Hk Hne HL Hid Hks Hdck Huuid Hsocc Hsocu Hvu Hbeacon Hsig)
       as (d & b & H). exists CEcc, d, b. exact H.
+Qed.
+(* formerly refuted (C15-F1): protocol 2.2 with 2..4 P-521 RoT keys *)
+Lemma dc_roundtrip_p521_lemma cnt socc ks rot_id dck uuid socu vu beacon fca sig :
+  (2 <= length ks <= 4)%nat -> (N.to_nat rot_id < length ks)%nat -> Forall (ecc_key_wf 521) ks -> ecc_key_wf 521 dck ->
+  length uuid = 16%nat -> u32_ok socc -> u32_ok socu -> u32_ok vu -> u32_ok beacon -> length sig = 132%nat ->
+  exists d b, dc_create 0 cnt socc ks rot_id dck uuid socu vu beacon fca = Ok (CEcc, d)
+              /\ dc_export CEcc (dc_with_sig d sig) = Ok b /\ forall extra, dc_parse_class CEcc (b ++ extra) = Ok (dc_with_sig d sig).
+Proof.
+  intros HL Hid Hks Hdck Huuid Hsocc Hsocu Hvu Hbeacon Hsig.
+  apply (dc_created_roundtrip_ecc cnt socc ks rot_id dck uuid socu vu beacon fca sig 521 2); try assumption; try lia.
+  intros ->. cbn [length] in HL. lia.
 Qed.
 (* the hypotheses are satisfiable in both branches *)
 Example created_rsa_premises :
-  rsa_rot_wf 256 (KRsa (2 ^ 2047 + 1) 65537) /\ Forall rsa_e3 [KRsa (2 ^ 2047 + 1) 65537] /\ rsa_key_wf 256 (KRsa (2 ^ 2047 + 3) 3)
+  rsa_rot_wf 256 (KRsa (2 ^ 2047 + 1) 65537) /\ Forall rsa_e3 [KRsa (2 ^ 2047 + 1) 65537] /\ rsa_rot_wf 256 (KRsa (2 ^ 2047 + 3) 3)
   /\ (forall items, map_res dc_rsa_item [KRsa (2 ^ 2047 + 1) 65537] = Ok items -> Forall (fun it => all_zero it = false) items).
 Proof.
   split; [repeat split; vm_compute; reflexivity|]. split; [repeat constructor; vm_compute; reflexivity|].
   split; [repeat split; vm_compute; reflexivity|].
   intros items H. vm_compute in H. inversion H. repeat constructor.
 Qed.
-Example created_ecc_premises : Forall (ecc_key_wf 256) [g256; g256] /\ ~ (256 = 521 /\ (2 <= length [g256; g256])%nat).
-Proof. split; [repeat constructor; vm_compute; reflexivity|intros [H _]; discriminate]. Qed.
+Example created_ecc_premises : Forall (ecc_key_wf 521) [g521; g521] /\ (2 <= length [g521; g521] <= 4)%nat.
+Proof. split; [repeat constructor; vm_compute; reflexivity|cbn; lia]. Qed.
